@@ -10,6 +10,14 @@ CLAIMED = {
    text="All call sequences up to length 3 over {Get,GetHandler,Set,SetHandler,Abort,Commit} x keys {x,y} x handlers {ok,fail,abort-then-ok,abort-then-fail} are enumerated and 8k (quick) / 200k (thorough) random sequences of length 4..8 are sampled; each runs on the real mem transaction (verif hook) and on the serial fallback over a plain store and is compared with a map model: one result per call, ids in call order, Get values, handler errors, no effect after abort, and afterwards a fresh transaction must open, commit and show the model's state (watchdog + goroutine dump decide a leaked lock; a fatal double unlock kills the child process and is reported from its log). Groups of 2..3 free-running concurrent transactions on the mem store run under the race detector with a pair-of-keys isolation oracle.",
    note="Trusts the harness's map model and plain store. Concurrent isolation is observed on free-running schedules only (no systematic interleaving at this level); Sets before an Abort are not expected to roll back.",
    technique="runtime monitor against a map model over enumerated/random transaction call sequences; race detector + isolation oracle on concurrent transactions"),
+ "C01": dict(level="exploration", design="4/C01",
+   text="Differential runtime monitor against the real os package: the complete situation matrix (every namespace operation x every target situation x argument variants incl. all 48 OpenFile flag sets; Rename over source x destination situations and name relations; ~1500 histories) plus 4k (quick) / 300k (thorough) seeded random histories of up to 40/60 steps run step by step on an empty os directory and on mem.FS, keyvalue.FS over the real mem store (call-counted) and keyvalue.FS over a plain Store; after every step success/failure, returned data and the whole tree are compared. Exploration is the strongest statement this family can make about 'all histories'; the matrix makes the reachable divergence signatures known rather than found by luck.",
+   note="Reference is Go's os package on Linux/tmpfs as root with umask 0 (harness's own thin os wrapper, not hackpadfs/os). Known divergences (known_findings.json: ReadFile of a directory, RemoveAll below a file) are exercised by the matrix and not issued inside random histories.",
+   technique="differential testing against the os package with per-step tree snapshots (runtime oracle over generated histories)"),
+ "C03": dict(level="exploration", design="4/C03",
+   text="Invariant walker evaluated after every step (successful or failed) of every history on the subject alone: the full closure of candidate paths (alphabet to depth 3 plus everything listed) is probed with Stat/Open/handle Stat/ReadDir and must form a well-formed tree (root is a directory, every existing path has a directory parent that lists it, every listed entry resolves with agreeing kinds, no duplicates). Termination is decided on logical steps (<=3000 store calls per operation) with the child-process watchdog behind it. Subjects: keyvalue.FS over the real mem store and over a plain Store, mount.FS with four mount points (nested and look-alike), Sub views incl. nested and of mounts. Cases: C01 matrix + root/own-subtree directed histories on every subject + 250 (quick) / 8000 (thorough) random histories per subject.",
+   note="The store-call budget stands in for 'every operation terminates'. Sub-view histories do not remove/rename the view's top directory. Known findings F52/F28 (mount-point directories can be removed or moved away) are keyed by the coarse situation 'covers-mountpoint' and not issued inside random histories.",
+   technique="runtime invariant monitor (closure walker) over generated histories with a logical-step termination budget"),
 }
 NOT_YET = "monitor not built yet in this session (see DESIGN.md section 4 for the planned runtime monitor)"
 props = [json.loads(l)["id"] for l in open("/verif/properties.jsonl")]
